@@ -36,5 +36,35 @@ PROPS = {
     },
 }
 
+PROPS["C01"] = {
+    "package": "c01",
+    "exe": "m_c01",
+    "rule": "signature lists over the property's seven classes {valid by authorized key i, second valid by the same key, "
+            "corrupted, over other content, by key of another role, by unknown key, by authorized key missing from "
+            "the key table}: exhaustively up to length 3 (quick, <=2 authorized keys) / 4 (thorough, <=3 keys) for "
+            "thresholds 1..k+1 at Root::verify_role and Delegations::verify_role (ed25519), random lists of length "
+            "3..5 over 1..4 keys with ecdsa-p256 and rsa-pss mixed in, and random lists placed at each of the eight "
+            "sites of load() (shipped root, N->N+1 under old keys, under new keys, timestamp, snapshot, targets, "
+            "delegated depth 1 and 2) with every other document well signed. Non-trivial: the verdict changes under at "
+            "least one of six plausible miscountings (no duplicate set, key table not consulted, authorization not "
+            "consulted, content not compared, signature bytes not checked, strict threshold), evaluated by the model.",
+    "exhaustive": {"quick": True, "thorough": True},
+    "explanation": "Theorems (Tough/Props/C01.lean): the verification loop (counter + mutable set) accepts iff the number of "
+                   "distinct authorized key ids present in the key table with a valid signature over the content reaches "
+                   "the threshold (both directions, any list length); non-counting and repeated signatures and the order "
+                   "of entries are irrelevant; every document a successful cycle trusts passed that check at its site. "
+                   "Correspondence: real keys and signatures (ed25519, ecdsa-p256, rsa-pss) through the two verify_role "
+                   "APIs and through RepositoryLoader::load.",
+    "level_text": "Kernel-checked iff between the implementation's loop and the set-cardinality specification, for all key "
+                  "tables, role key lists, thresholds and signature lists; lifted to the verification sites of the update "
+                  "cycle; tied to the code by exhaustive small-scope and random differential runs with real signatures.",
+    "level_note": "Trusted: Lean kernel and the three standard axioms; signature schemes are abstract (a signature verifies "
+                  "iff made by the key stored under the claimed id over the checked message) and aws-lc is compared with "
+                  "the generator's ground truth only; serde parsing of the documents; harness and runner.",
+    "trusted": ["modelled, not verified: ed25519 / ecdsa-p256 / rsa-pss verification (aws-lc-rs), serde deserialisation, "
+                "canonical JSON of the signed portion (see C11, C12)"],
+    "assumptions": ["perfect signature scheme abstraction", "key ids identify keys (C13)"],
+}
+
 _PENDING = "check under construction in this session (DESIGN.md §10 order of work); not claimed until it runs"
 NOT_APPLICABLE = {f"C{i:02d}": _PENDING for i in range(1, 21)}
